@@ -177,7 +177,7 @@ CHECKS = {
         "goal G: a fresh not(G) node asks G's node once, answers with exactly the substitution it was created with iff that "
         "request finds no answer, fails otherwise, and is spent afterwards (C05). Tie to the code: extracted reference searches as "
         "oracles against the implementation (19 goals G x 9 positions, not(not(G)), random programs) and model-vs-implementation "
-        "correspondence.", ref="7/C03",
+        "correspondence. Laws of the reference for cut-free programs (Properties/C03laws.v, Proofs/NotLaw.v), in terms of the direct-style interpreter that the reference equals (C01laws): the answers of not(g) are exactly [the substitution it was entered with] when g has no answer and [] when g has one - g being asked for its first answer only - and time(g) continues with g's first answer only (C03_not_law, C03_time_law).", ref="7/C03",
    technique="Coq refinement proof (model refines reference search with not) + Coq proof about the not node (Properties/C03.v) + extracted reference semantics as oracle + model-vs-implementation correspondence"),
  "C04": dict(
    text="Machine-checked: (1) for EVERY program the complete output of draining a query equals the output of the reference "
